@@ -349,3 +349,125 @@ Proof.
     + apply tiling_extend. exact T.
 Qed.
 
+
+(** ** sub-intervals, splitting and growing an interval of a tiling *)
+
+Lemma iv_disj_sub a a' b : fst a <= fst a' -> iv_hi a' <= iv_hi a -> iv_disj a b = true -> iv_disj a' b = true.
+Proof.
+  unfold iv_disj, iv_hi. intros H1 H2 H.
+  destruct (N.eqb_spec (snd a') 0); [reflexivity|]. cbn [orb].
+  destruct (N.eqb_spec (snd b) 0); [reflexivity|]. cbn [orb].
+  destruct (N.eqb_spec (snd a) 0) as [E|E]; [unfold iv_hi in *; lia|]. cbn [orb] in H.
+  apply orb_true_iff in H. apply orb_true_iff. destruct H as [H|H]; apply N.leb_le in H; [left|right]; apply N.leb_le; lia.
+Qed.
+
+Lemma disj_from_sub a a' l : fst a <= fst a' -> iv_hi a' <= iv_hi a -> disj_from a l = true -> disj_from a' l = true.
+Proof.
+  intros H1 H2. rewrite !disj_from_forall. intros H b Hb. eapply iv_disj_sub; eauto.
+Qed.
+
+Lemma tiling_split cl n a x y h :
+  tiling cl n ((a, x + y) :: h) -> tiling cl n ((a, x) :: (a + x, y) :: h).
+Proof.
+  intros [H1 H2 H3 H4]. cbn [pairwise_disj] in H1. apply andb_true_iff in H1. destruct H1 as [Hd Hp].
+  split.
+  - cbn [pairwise_disj disj_from]. rewrite Hp, andb_true_r.
+    assert (disj_from (a, x) h = true) as -> by (eapply disj_from_sub; [| |exact Hd]; unfold iv_hi; cbn [fst snd]; lia).
+    assert (disj_from (a + x, y) h = true) as -> by (eapply disj_from_sub; [| |exact Hd]; unfold iv_hi; cbn [fst snd]; lia).
+    rewrite !andb_true_r. unfold iv_disj, iv_hi. cbn [fst snd].
+    assert (a + x <=? a + x = true) as -> by (apply N.leb_le; lia). rewrite !orb_true_r. reflexivity.
+  - unfold iv_within in *. cbn [forallb] in *. apply andb_true_iff in H2. destruct H2 as [Ha Hh]. rewrite Hh, andb_true_r.
+    unfold iv_hi in *. cbn [fst snd] in *.
+    apply orb_true_iff in Ha. apply andb_true_iff. split; apply orb_true_iff.
+    + destruct (N.eqb_spec x 0); [left; reflexivity|right]. destruct Ha as [Ha|Ha]; [apply N.eqb_eq in Ha; lia|apply N.leb_le in Ha; apply N.leb_le; lia].
+    + destruct (N.eqb_spec y 0); [left; reflexivity|right]. destruct Ha as [Ha|Ha]; [apply N.eqb_eq in Ha; lia|apply N.leb_le in Ha; apply N.leb_le; lia].
+  - intros C. specialize (H3 C). cbn [iv_total snd] in *. lia.
+  - intros C. specialize (H4 C). cbn [iv_maxhi] in *. unfold iv_hi in *. cbn [fst snd] in *.
+    destruct (N.eqb_spec (x + y) 0), (N.eqb_spec x 0), (N.eqb_spec y 0); lia.
+Qed.
+
+(** the interval at the top of the tiling grows by the next position *)
+Lemma tiling_grow cl n lo k h :
+  tiling cl n ((lo, k) :: h) -> lo + k = n -> 1 <= k -> tiling cl (n + 1) ((lo, k + 1) :: h).
+Proof.
+  intros T E Hk. pose proof (tiling_extend _ _ _ 1 T) as T'.
+  (* (n,1) :: (lo,k) :: h  is the split of (lo, k+1) :: h *)
+  destruct T' as [H1 H2 H3 H4]. cbn [pairwise_disj disj_from] in H1.
+  apply andb_true_iff in H1. destruct H1 as [Hd Hp]. apply andb_true_iff in Hd. destruct Hd as [_ Hdn].
+  apply andb_true_iff in Hp. destruct Hp as [Hdl Hph].
+  split.
+  - cbn [pairwise_disj]. rewrite Hph, andb_true_r.
+    apply disj_from_forall. intros b Hb.
+    rewrite disj_from_forall in Hdn, Hdl. specialize (Hdn b Hb). specialize (Hdl b Hb).
+    unfold iv_disj, iv_hi in *. cbn [fst snd] in *.
+    destruct (N.eqb_spec (k + 1) 0); [lia|]. destruct (N.eqb_spec k 0); [lia|]. destruct (N.eqb_spec 1 0); [lia|].
+    cbn [orb] in *. destruct (N.eqb_spec (snd b) 0); [reflexivity|]. cbn [orb] in *.
+    apply orb_true_iff in Hdn, Hdl. apply orb_true_iff.
+    destruct Hdl as [Hl|Hl]; apply N.leb_le in Hl.
+    + destruct Hdn as [Hn|Hn]; apply N.leb_le in Hn; [left; apply N.leb_le; lia|lia].
+    + right. apply N.leb_le. lia.
+  - unfold iv_within in *. cbn [forallb] in *. apply andb_true_iff in H2. destruct H2 as [_ H2].
+    apply andb_true_iff in H2. destruct H2 as [_ H2]. rewrite H2, andb_true_r.
+    unfold iv_hi. cbn [fst snd]. apply orb_true_iff. right. apply N.leb_le. lia.
+  - intros C. specialize (H3 C). cbn [iv_total snd] in *. lia.
+  - intros C. specialize (H4 C). cbn [iv_maxhi] in *. unfold iv_hi in *. cbn [fst snd] in *.
+    destruct (N.eqb_spec (k + 1) 0); [lia|]. destruct (N.eqb_spec k 0); [lia|]. destruct (N.eqb_spec 1 0); lia.
+Qed.
+
+(** everything else lies below the interval at the top of the tiling *)
+Lemma below_top cl n lo k h :
+  tiling cl n ((lo, k) :: h) -> lo + k = n -> 1 <= k -> iv_maxhi h <= lo.
+Proof.
+  intros [H1 H2 _ _] E Hk. cbn [pairwise_disj] in H1. apply andb_true_iff in H1. destruct H1 as [Hd _].
+  unfold iv_within in H2. cbn [forallb] in H2. apply andb_true_iff in H2. destruct H2 as [_ Hw].
+  apply iv_within_maxhi. unfold iv_within. rewrite forallb_forall in *. intros b Hb.
+  rewrite disj_from_forall in Hd. specialize (Hd b Hb). specialize (Hw b Hb).
+  unfold iv_disj, iv_hi in *. cbn [fst snd] in *.
+  destruct (N.eqb_spec (snd b) 0); [reflexivity|]. cbn [orb] in *.
+  destruct (N.eqb_spec k 0); [lia|]. cbn [orb] in Hd.
+  apply N.leb_le in Hw. apply orb_true_iff in Hd. apply N.leb_le.
+  destruct Hd as [Hd|Hd]; apply N.leb_le in Hd; lia.
+Qed.
+
+(** removing an interval from a tiling that is not required to be exact *)
+Lemma tiling_drop_head n a h : tiling false n (a :: h) -> tiling false n h.
+Proof.
+  intros [H1 H2 _ _]. cbn [pairwise_disj] in H1. apply andb_true_iff in H1. destruct H1 as [_ H1].
+  unfold iv_within in H2. cbn [forallb] in H2. apply andb_true_iff in H2. destruct H2 as [_ H2].
+  split; try discriminate; assumption.
+Qed.
+
+(** an empty interval does not matter *)
+Lemma tiling_empty_iv cl n a h : snd a = 0 -> (tiling cl n (a :: h) <-> tiling cl n h).
+Proof.
+  intros Hz. split; intros [H1 H2 H3 H4]; split.
+  - cbn [pairwise_disj] in H1. apply andb_true_iff in H1. apply H1.
+  - unfold iv_within in *. cbn [forallb] in H2. apply andb_true_iff in H2. apply H2.
+  - intros C. specialize (H3 C). cbn [iv_total] in H3. lia.
+  - intros C. specialize (H4 C). cbn [iv_maxhi] in H4. rewrite Hz in H4. cbn [N.eqb] in H4. exact H4.
+  - cbn [pairwise_disj]. rewrite H1, andb_true_r. apply disj_from_forall. intros b _. unfold iv_disj. rewrite Hz. reflexivity.
+  - unfold iv_within in *. cbn [forallb]. rewrite H2, andb_true_r. rewrite Hz. reflexivity.
+  - intros C. cbn [iv_total]. rewrite (H3 C). lia.
+  - intros C. cbn [iv_maxhi]. rewrite Hz. cbn [N.eqb]. auto.
+Qed.
+
+(** the interval at the top of the tiling grows by the next position (also from empty) *)
+Lemma tiling_grow0 cl n lo k h :
+  tiling cl n ((lo, k) :: h) -> lo + k = n -> tiling cl (n + 1) ((lo, k + 1) :: h).
+Proof.
+  intros T E. destruct (N.eq_dec k 0) as [->|Hk].
+  - apply (tiling_empty_iv cl n (lo, 0) h eq_refl) in T. replace lo with n by lia. cbn [N.add].
+    apply tiling_extend. exact T.
+  - apply tiling_grow; [assumption|assumption|lia].
+Qed.
+
+(** an interval of the tiling is replaced by the two pieces a chunk result reports *)
+Lemma tiling_split_form cl n b k took rest :
+  took <= k -> tiling cl n ((b, k) :: rest) ->
+  tiling cl n (((if took =? 0 then [] else [(b, took)]) ++ [(b + took, k - took)]) ++ rest).
+Proof.
+  intros Ht T. replace k with (took + (k - took)) in T by lia. apply tiling_split in T.
+  destruct (N.eqb_spec took 0) as [->|Hz].
+  - cbn [app]. apply (proj1 (tiling_empty_iv cl n (b, 0) _ eq_refl)) in T. exact T.
+  - cbn [app]. exact T.
+Qed.
